@@ -1,11 +1,11 @@
 SPECIFICATION Spec
 CONSTANTS
-  Alphabet = {"lt", "gt", "slash", "qmark", "bang", "eq", "dq", "sp", "nl", "x", "nul"}
-  MaxLen = 5
-  Emit = TRUE
+  Alphabet = {"doctype", "dq", "sq", "gt", "x", "nul"}
+  MaxLen = 4
+  Emit = FALSE
   VoidClosesTag = TRUE
   NameStopNeedsGt = TRUE
-  DoctypeQuote = "remember"
+  DoctypeQuote = "nonul"
   NulInTagIsError = TRUE
 INVARIANT TypeOK
 PROPERTY RefinesXml
